@@ -520,6 +520,10 @@ class BaseParser:
                 continue
 
             parsed = field.parse_value(value, context=context)
+            if field.name in context.excluded_fields:
+                # left out by the 'exclude' policy (its default may take its place):
+                # for the fields that depend on it, it counts as not given
+                unprovided_fields.add(name)
             if unprovided(parsed):
                 continue
 
@@ -636,6 +640,10 @@ class BaseParser:
                 continue
 
             parsed = field.parse_value(value, context=context)
+            if field.name in context.excluded_fields:
+                # left out by the 'exclude' policy (its default may take its place):
+                # for the fields that depend on it, it counts as not given
+                unprovided_fields.add(name)
             if unprovided(parsed):
                 continue
 
